@@ -3,7 +3,7 @@
 report it: updates meta.json and writes seeded/MATRIX.md."""
 import json, glob, os, collections
 rows = []
-for d in sorted(glob.glob('/verif/seeded/C*-m*')):
+for d in sorted(glob.glob('/verif/seeded/C*-*m*')):
     mt = os.path.join(d, '.matrix.txt')
     if not os.path.exists(mt):
         continue
@@ -16,6 +16,10 @@ for d in sorted(glob.glob('/verif/seeded/C*-m*')):
     meta = json.load(open(os.path.join(d, 'meta.json')))
     meta['detected_by'] = [{"check": p, "rules": rs} for p, rs in by.items()]
     own = meta['breaks_property']
+    if meta.get('no_longer_demonstrable'):
+        meta['detected_by'] = [{"check": p, "rules": rs} for p, rs in by.items()]
+        json.dump(meta, open(os.path.join(d, 'meta.json'), 'w'), indent=1)
+        continue
     meta['detection_note'] = ("reported by the check of its own property" if own in by else
                               ("reported only by checks of other properties" if by else "NOT detected by any check"))
     meta['ran'] = "scripts/seed_matrix.sh: patch applied to a scratch worktree of /repo (HEAD with the fix: commits), all 19 quick checks run against it with VERIF_REPO, worktree removed"
